@@ -31,7 +31,7 @@ RULE = ("recordings of 12000-90000 samples x 65/97/385 channels, batch sizes {40
 ASSUMPTIONS = ["pyfftw replaced by a scipy.fft stand-in (numerically equivalent to +-1 LSB of the int16 output; worker-count identity and sync identity do not depend on it)",
                "workers share nothing but the output / QC files", "the batch-wise reference re-uses the repository's own per-batch building blocks (saturation, fshift, "
                "kfilt/car): it judges the batching / seek / stitch logic, not the DSP (C05, C16 do)"]
-REQUIRED = {"configs": 4, "explicit_width_configs": 3, "stale_output_checked": 4, "width_compared": 3, "workers_probed": 10, "write_rows_judged": 50000, "orders_executed": 8, "sync_columns_compared": 4, "reference_compared": 4,
+REQUIRED = {"library_destripe_batches_compared": 12, "library_destripe_batches_with_outside_channels": 2, "configs": 4, "explicit_width_configs": 3, "stale_output_checked": 4, "width_compared": 3, "workers_probed": 10, "write_rows_judged": 50000, "orders_executed": 8, "sync_columns_compared": 4, "reference_compared": 4,
             "saturated_samples": 10, "reject_runs_with_bad_channels": 1, "custom_filter_settings": 1, "compressed_inputs": 2, "inputs_with_inconsistent_metadata": 2, "qc_files_after_rerun": 6}
 CASE_TIMEOUT = 400.0
 MAX_PROCS = 10
@@ -170,7 +170,7 @@ def canonical_batches(ns, nbatch):
     return out
 
 
-def reference(V, F, sr, rec, nbatch, k_filter, wrot, labels, nc_out, ns2add, h, butter_kwargs=None, k_kwargs=None):
+def reference(V, F, sr, rec, nbatch, k_filter, wrot, labels, nc_out, ns2add, h, butter_kwargs=None, k_kwargs=None, lib=None):
     """batch-wise in-memory destriping with the documented taper margins, stitched by the harness"""
     import spikeglx
     ns, n = rec.ns, rec.n
@@ -248,6 +248,7 @@ def reference(V, F, sr, rec, nbatch, k_filter, wrot, labels, nc_out, ns2add, h, 
         satf, mute = V.saturation(data=chunk, max_voltage=sr.range_volts[:n], fs=fs)
         chunk[:, :TAPER] *= taper[:TAPER]
         chunk[:, -TAPER:] *= taper[TAPER:]
+        tapered = chunk.copy()
         chunk = scipy.signal.sosfiltfilt(sos, chunk)
         chunk = F.fshift(chunk, s=h["sample_shift"])
         if labels is not None:
@@ -256,6 +257,21 @@ def reference(V, F, sr, rec, nbatch, k_filter, wrot, labels, nc_out, ns2add, h, 
             chunk[inside, :] = spatial(chunk[inside, :])
         else:
             chunk = spatial(chunk)
+        if lib is not None and (len(rows) < 2 or last == ns):
+            # the clause names the library's OWN in-memory destriping: the first two and the last batch also go through voltage.destripe (same
+            # tapered samples, same labels, same settings) and must agree with the harness's batch before muting (round 21)
+            res_, label_ = lib
+            try:
+                got = V.destripe(tapered.copy(), fs, h=h, butter_kwargs=butter_kwargs, k_kwargs=k_kwargs, channel_labels=labels, k_filter=k_filter)
+                devl = float(np.max(np.abs(np.asarray(got, np.float64) - chunk) / rec.s2v[:n, None])) if np.shape(got) == chunk.shape else float("inf")
+                res_.measure("max_dev_library_destripe_from_reference_lsb", devl)
+                res_.check(devl <= 0.05, "in-memory-destripe:reference", f"{label_}: voltage.destripe of the batch {first}:{last} (labels "
+                           f"{'given, ' + str(int(np.sum(labels == 3))) + ' outside' if labels is not None else 'none'}) differs from the batch-wise reference by {devl:.3g} LSB",
+                           counter="library_destripe_batches_compared")
+                if labels is not None and np.any(labels == 3):
+                    res_.count("library_destripe_batches_with_outside_channels")
+            except Exception as e:
+                res_.exception("in-memory-destripe:exception", e, label_)
         chunk = chunk * mute[None, :]
         a = TAPER if first > 0 else 0
         b = (last - first) if last == ns else nbatch - TAPER
@@ -414,7 +430,7 @@ def run_case(case):
                 if opts.get("butter_kwargs") is not None:
                     res.count("custom_filter_settings")
                 ref, _ = reference(V, F, sr, rec, nbatch, opts.get("k_filter", True), opts.get("wrot"), labels, nc_out, ns2add, sr.geometry,
-                                   butter_kwargs=opts.get("butter_kwargs"), k_kwargs=opts.get("k_kwargs"))
+                                   butter_kwargs=opts.get("butter_kwargs"), k_kwargs=opts.get("k_kwargs"), lib=(res, label))
                 sr.close()
                 # the code casts by truncation: compare integers with integers (two values closer than 1 truncate to integers at most 1 apart)
                 mcol = min(n, nc_out)
